@@ -481,9 +481,9 @@ Proof.
   - simpl. destruct (Z.eq_dec x b); [rewrite IH; reflexivity | exact IH].
 Qed.
 
-Lemma delbr_removes di l d r :
+Lemma delbr_removes m fuel di l d r :
   d_status d = Live -> 0 <= l -> resolve_line di l = Some r ->
-  let d' := exec_cmd (mkModule [] [] [] 0 None) di O d (CDelbr l) in
+  let d' := exec_cmd m di fuel d (CDelbr l) in
   let a := r_start r in
   count_occ Z.eq_dec (d_bps d') a = pred (count_occ Z.eq_dec (d_bps d) a) /\
   (forall b, b <> a -> count_occ Z.eq_dec (d_bps d') b = count_occ Z.eq_dec (d_bps d) b) /\
@@ -588,9 +588,9 @@ Proof.
   apply andb_true_iff. split; [apply Z.geb_le; lia | apply Z.gtb_lt; lia].
 Qed.
 
-Lemma break_sets_resolved di l d r :
+Lemma break_sets_resolved m fuel di l d r :
   d_status d = Live -> 0 <= l -> resolve_line di l = Some r ->
-  let d' := exec_cmd (mkModule [] [] [] 0 None) di O d (CBreak l) in
+  let d' := exec_cmd m di fuel d (CBreak l) in
   d_bps d' = d_bps d ++ [r_start r] /\ d_m d' = d_m d.
 Proof.
   intros L P R d'. unfold d', exec_cmd, do_break. rewrite L.
